@@ -71,6 +71,18 @@ def scn_threads(ctx):
         wait_done(f, sched.now() + 5)
         d = None
         del f, d
+    kept = []
+    if p.get("kept_cancelled"):
+        # a future cancelled while its callable was queued in the delegate - and the user keeps that future
+        f = box[0].submit(lambda: 1)
+        sched.vsleep_until(sched.now() + 0.25)
+        f.cancel()
+        for d in list(me.submitted):
+            finish(d, "cancel")  # the delegate dequeues the cancelled work item
+        sched.vsleep_until(sched.now() + 0.25)
+        kept.append(f)
+        d = None
+        del f, d
     t_act = [None]
 
     def actor():
@@ -98,6 +110,7 @@ def scn_threads(ctx):
     for w in ws:
         ctx.check("worker-thread-exits-promptly", w.finished, "%s still alive %d eps after %s (state: %s)" % (w.name, K, how, w.pending and w.pending[0]))
         ctx.reach("exit-checked-" + how)
+    del kept[:]
     return True
 
 
@@ -234,6 +247,7 @@ def plan(tier, seed):
         items.append(dict(scenario="threads", params=dict(kind=k), bounds=dict(P=3 if q else 5)))
         if k == "retry":
             items.append(dict(scenario="threads", params=dict(kind=k, backoff=True), bounds=dict(P=1 if q else 2)))
+        items.append(dict(scenario="threads", params=dict(kind=k, kept_cancelled=True), bounds=dict(P=1 if q else 2)))
         items.append(dict(scenario="refs", params=dict(kind=k, n=2 if q else 3), bounds=dict(P=0)))
         items.append(dict(scenario="pending_outlives", params=dict(kind=k), bounds=dict(P=2 if q else 3)))
     return items
